@@ -62,6 +62,10 @@ def generate(streams: Streams, tier: str, index: int) -> dict:
     hist = world.random_history(rng, allow_overlap=False, small_motion=small,
                                 max_frames=8, max_drops=6)
     crng = streams["config"]
+    if crng.random() < 0.06:
+        # a time course followed backwards: strictly DEcreasing time stamps (C07 does not ask
+        # for increasing ones; every oracle here works on frame indices)
+        hist = {**hist, "frames": [{**f, "t": -float(gen.make_time(f["t"]))} for f in hist["frames"]]}
     configs = []
     for _ in range(crng.choice([2, 3, 4])):
         method = crng.choice(["overlap", "distance"])
